@@ -158,6 +158,12 @@ def unit(item):
                     case = dict(kind="beam", policy=pkey, spec=skey, wseed=wseed, batch=[dict(instance_id=i, instance=trees[i][0]) for i in batch], row=r, beam_width=w, select_best=select_best)
                     if ref is None:
                         p.add(infeasible_forced_starts=1)
+                        # with at least w feasible first moves available, a beam forced onto an infeasible first move is an
+                        # infeasible returned beam (with fewer, the start rule has nothing to choose from: not judged)
+                        firsts_ok = {h[0] for h in finals} - {0}
+                        bad = [s_ for s_ in starts if (s_,) not in {h[:1] for h in finals}]
+                        if len(firsts_ok) >= w and bad:
+                            p.violation(sig(skey, "infeasible_beam", f"B={B}|forced_start"), case, f"{pkey} x {skey} {iid}: width {w}: beams are forced to start at {starts}; {bad} is not a feasible first move although {sorted(firsts_ok)} are available")
                         continue
                     if ref == "too_few":
                         p.add(too_few_candidates=1)
